@@ -222,6 +222,16 @@ func runC05(o *cli.Opts, run *evid.Run) {
 			ops = append(ops, op{idx, c05Elem(r)}, op{r.Intn(1 << d), sp[r.Intn(len(sp))]})
 		}
 		ops = append(ops, op{idx, v})
+		if i%4 == 3 && v.Sign() != 0 {
+			// the SAME big.Int object goes into a second leaf (a shared dummy commitment), then the first leaf is
+			// overwritten: the second leaf, and the caller's value, must keep the old value
+			j := (idx + 1 + r.Intn(1<<d-1)) % (1 << d)
+			if d == 0 || j == idx {
+				j = idx ^ 1
+			}
+			ops = append(ops, op{j, v}, op{idx, gen.NonZeroElem(r, ref.R)}, op{r.Intn(1 << d), c05Elem(r)})
+		}
+		vBefore := new(big.Int).Set(v)
 		okAll := true
 		for k, o2 := range ops {
 			prev := rt.Get(uint64(o2.i))
@@ -237,6 +247,10 @@ func runC05(o *cli.Opts, run *evid.Run) {
 				okAll = false
 				run.Violate(fmt.Sprintf("%s/step%d", key, k), fmt.Sprintf("off-chain tree (depth %d) after writing 0x%s at %d over 0x%s: root 0x%s, reference Poseidon tree (= what the circuit recomputes) 0x%s, returned path has %d siblings", d, o2.v.Text(16), o2.i, prev.Text(16), got.Text(16), rt.Root().Text(16), len(sib)), nil)
 			}
+		}
+		if v.Cmp(vBefore) != 0 {
+			okAll = false
+			run.Violate(key+"/caller-value", fmt.Sprintf("the off-chain tree modified the caller's value 0x%s (now 0x%s) while updating another leaf", vBefore.Text(16), v.Text(16)), nil)
 		}
 		run.Case("offchain-tree", true, key+v.Text(16), okAll, map[string]any{"depth": d, "value": "0x" + v.Text(16), "index": idx, "writes": len(ops)})
 	})
